@@ -384,6 +384,13 @@ def run(ctx):
                 if other is not None and not p["node"].count("/") and other["kind"] == "interrupt" and nm != leaf \
                         and other["fn"][0] == "const" and other["fn"][1] is not None and other["outputs"][0] not in obs["values"]:
                     msgs.append(f"interrupt {nm} answered {other['fn'][1]!r} before the pause, but {other['outputs'][0]!r} is missing from the paused result")
+            # ... and so is the output of every ordinary node of the graph that ran in the paused run (a sibling of a pausing NESTED graph included)
+            top = {m["name"]: m for m in g["nodes"]}
+            for nm in dict.fromkeys(nm for nm, _ in obs["log"]):
+                m = top.get(nm)
+                if m is not None and m["kind"] == "func" and not g.get("selected") and any(o not in obs["values"] for o in m["outputs"]):
+                    msgs.append(f"node {nm} ran in the run that paused at {p['node']} but its output {[o for o in m['outputs'] if o not in obs['values']]} "
+                                f"is missing from the paused result (computed, thrown away, computed again on resume)")
             nontrivial.add(engine.program_key(g, rc))
             # MODEL: pause identity
             d = pdl.graph_depth(g) + 1
